@@ -40,11 +40,42 @@ const (
 	O_SYNC   = os.O_SYNC
 	O_TRUNC  = os.O_TRUNC
 
-	ModePerm      = fs.ModePerm
-	ModeDir       = fs.ModeDir
-	PathSeparator = '/'
-	DevNull       = "/dev/null"
+	ModePerm       = fs.ModePerm
+	ModeDir        = fs.ModeDir
+	ModeAppend     = fs.ModeAppend
+	ModeExclusive  = fs.ModeExclusive
+	ModeTemporary  = fs.ModeTemporary
+	ModeSymlink    = fs.ModeSymlink
+	ModeDevice     = fs.ModeDevice
+	ModeNamedPipe  = fs.ModeNamedPipe
+	ModeSocket     = fs.ModeSocket
+	ModeSetuid     = fs.ModeSetuid
+	ModeSetgid     = fs.ModeSetgid
+	ModeCharDevice = fs.ModeCharDevice
+	ModeSticky     = fs.ModeSticky
+	ModeIrregular  = fs.ModeIrregular
+	ModeType       = fs.ModeType
+	SEEK_SET       = 0
+	SEEK_CUR       = 1
+	SEEK_END       = 2
+	PathSeparator  = '/'
+	DevNull        = "/dev/null"
 )
+
+// NewFile returns the standard stream for descriptors 0-2 (anything else has no simulated counterpart).
+func NewFile(fd uintptr, name string) *File {
+	switch fd {
+	case 0:
+		return Stdin
+	case 1:
+		return Stdout
+	case 2:
+		return Stderr
+	}
+	return nil
+}
+
+func Getpagesize() int { return 4096 }
 
 type (
 	FileMode  = fs.FileMode
@@ -113,6 +144,7 @@ type inode struct {
 	children map[string]*inode
 	nlink    int
 	shrinks  int // times the content got shorter (truncate / O_TRUNC)
+	rewrites int // times already written bytes were written over
 	created  time.Time
 	writes   []WriteRec
 }
@@ -163,6 +195,8 @@ type FS struct {
 	Stderr []StreamWrite
 
 	MaxOpen int // high-water mark of open handles
+
+	StdioMode fs.FileMode // fs.ModeCharDevice (terminal, default), fs.ModeNamedPipe, or 0 (regular file)
 }
 
 // StreamWrite is one Write call received by a standard stream.
@@ -188,6 +222,7 @@ func Reset() *FS {
 		Ops:         map[string]int{},
 		WriteChunks: 1,
 		nextFd:      3,
+		StdioMode:   fs.ModeCharDevice,
 	}
 	f.root = f.newInode(true)
 	f.MkdirAll("/work")
@@ -513,6 +548,9 @@ func (h *File) commit(b []byte, step, task int) {
 	if off > len(n.data) {
 		n.data = append(n.data, make([]byte, off-len(n.data))...)
 	}
+	if off < len(n.data) && len(b) > 0 {
+		n.rewrites++
+	}
 	if off+len(b) > len(n.data) {
 		n.data = append(n.data, make([]byte, off+len(b)-len(n.data))...)
 	}
@@ -664,7 +702,8 @@ func (h *File) Stat() (FileInfo, error) {
 		return nil, err
 	}
 	if h.stdio != 0 {
-		return info{name: h.name, mode: fs.ModeCharDevice | 0620}, nil
+		// what the standard streams are connected to is a per-run knob: a terminal, a pipe or a file
+		return info{name: h.name, mode: h.filesys().StdioMode | 0620}, nil
 	}
 	f := h.filesys()
 	f.mu.Lock()
@@ -1013,6 +1052,7 @@ type Entry struct {
 	ModTime time.Time
 	Ino     int
 	Shrinks int
+	Rewrites int
 }
 
 // List returns the entries of a directory sorted by name (nil if missing).
@@ -1025,7 +1065,7 @@ func (f *FS) List(dir string) []Entry {
 	}
 	var out []Entry
 	for k, c := range n.children {
-		out = append(out, Entry{Name: k, IsDir: c.dir, Size: len(c.data), ModTime: c.mtime, Ino: c.id, Shrinks: c.shrinks})
+		out = append(out, Entry{Name: k, IsDir: c.dir, Size: len(c.data), ModTime: c.mtime, Ino: c.id, Shrinks: c.shrinks, Rewrites: c.rewrites})
 	}
 	sort.Slice(out, func(i, j int) bool { return out[i].Name < out[j].Name })
 	return out
